@@ -555,7 +555,11 @@ def run_check(prop, plugin, tier, seed, replay=None):
         violations.append((path, False))
     if disagreements:
         # a disagreement whose input also fails the oracle is already reported above with that input
-        failing_inputs = {(f["header"], tuple(f["ops"])) for f in oracle_failures}
+        # (a known finding does not count: the models mirror the recorded defects exactly, so a disagreement on such an input
+        # is a new difference and must not hide behind the known one)
+        known_classes = {kf.get("class") for kf in known}
+        failing_inputs = {(f["header"], tuple(f["ops"])) for f in oracle_failures
+                          if f["failure"].get("class", "unclassified") not in known_classes}
         pure = [d for d in disagreements if (d["header"], tuple(d["ops"])) not in failing_inputs]
         if pure and not any(not nf for _, nf in violations):
             d = pure[0]
